@@ -351,6 +351,13 @@ func c05Build(env *core.Env) *c05Pool {
 				p.runtime = append(p.runtime, &dtpb.Instant{ValueUs: dt.ValueUs, Timezone: dt.Timezone})
 			}
 		}
+		// a string value also held by the other string-valued element types (each reads as a System String)
+		if m.Kind == "String" {
+			for _, fv := range []any{&dtpb.Xhtml{Value: m.S}, &dtpb.Markdown{Value: m.S}, &dtpb.Uri{Value: m.S}, &dtpb.Url{Value: m.S}, &dtpb.Canonical{Value: m.S}, &dtpb.Id{Value: m.S}, &dtpb.Oid{Value: m.S}, &dtpb.Uuid{Value: m.S}} {
+				p.vals = append(p.vals, c05Val{s, "fhir", m})
+				p.runtime = append(p.runtime, fv)
+			}
+		}
 		for variant := 0; variant < 3; variant++ {
 			if variant == 2 && !(m.Kind == "Date" || (m.Kind == "DateTime" && m.T.Comps <= 3)) {
 				break
